@@ -252,6 +252,42 @@ def _g_cmp(ctx, w, wt, where, ops):
                  {"ops": [gen.op_json(o) for o in ops]}, stop=True)
 
 
+def _exec_place_preamble(rng):
+    """A committed file (executable or not) whose place and/or executable bit then change, followed by revert: the revert
+    has to restore name, parent and mode of one entry at once (or bring back a removed executable file)."""
+    f, g = rng.sample(["run.sh", "tool", "notes.txt", "x.c"], 2)
+    ex = rng.random() < 0.6
+    script = [{"op": "mkdir", "path": "bin"}, {"op": "add", "path": "bin", "id": "xbin"},
+              {"op": "mkfile", "path": f, "content": b"#!/bin/sh\n"}, {"op": "add", "path": f, "id": "xf"},
+              {"op": "chmod", "path": f, "exec": ex}, {"op": "commit"}]
+    how = rng.choice(["rename+chmod", "move+chmod", "remove", "rename", "chmod"])
+    if how == "rename+chmod":
+        script += [{"op": "rename", "src": f, "dst": g}, {"op": "chmod", "path": g, "exec": not ex}]
+    elif how == "move+chmod":
+        script += [{"op": "rename", "src": f, "dst": "bin/" + f}, {"op": "chmod", "path": "bin/" + f, "exec": not ex}]
+    elif how == "remove":
+        script += [{"op": "remove", "path": f}]
+    elif how == "rename":
+        script += [{"op": "rename", "src": f, "dst": g}]
+    else:
+        script += [{"op": "chmod", "path": f, "exec": not ex}]
+    script += [{"op": "revert"}]
+    return script, how
+
+
+def _prefix_sibling_preamble(rng):
+    a, b = rng.choice([("d1", "d10"), ("sub", "sub2"), ("f1", "f10"), ("doc", "doc.txt")])
+    script = [{"op": "mkdir", "path": a}, {"op": "mkfile", "path": a + "/x", "content": b"ax\n"}, {"op": "add", "path": a, "id": "pa"},
+              {"op": "add", "path": a + "/x", "id": "pax"}]
+    if "." in b:
+        script += [{"op": "mkfile", "path": b, "content": b"sibling file\n"}, {"op": "add", "path": b, "id": "pb"}]
+    else:
+        script += [{"op": "mkdir", "path": b}, {"op": "mkfile", "path": b + "/y", "content": b"by\n"}, {"op": "add", "path": b, "id": "pb"},
+                   {"op": "add", "path": b + "/y", "id": "pby"}]
+    script += [{"op": "commit"}, {"op": rng.choice(["remove", "unversion", "delete_disk"]), "path": a}]
+    return script
+
+
 def case_git(ctx):
     from breezy.workingtree import WorkingTree
 
@@ -266,9 +302,20 @@ def case_git(ctx):
     weights["kindchange"] = 0
     ops, kinds = [], []
     ctx.info["ops"] = ops
+    script = []
+    r0 = rng.random()
+    if r0 < 0.2:
+        script = _prefix_sibling_preamble(rng)
+        ctx.hist("git-prefix-sibling-preamble")
+    elif r0 < 0.4:
+        script, how = _exec_place_preamble(rng)
+        ctx.hist("git-exec-place-preamble:" + how)
+    nops += len(script)
     for step in range(nops):
         r = rng.random()
-        if r < 0.08 and _g_model_view(w) != (_g_model_view(w, w.basis) if w.basis is not None else {}):
+        if script:
+            op = script.pop(0)
+        elif r < 0.08 and _g_model_view(w) != (_g_model_view(w, w.basis) if w.basis is not None else {}):
             op = {"op": "commit"}
         elif r < 0.12 and w.basis is not None:
             op = {"op": "revert"}
@@ -381,6 +428,9 @@ def case(ctx):
             script += [{"op": "mkfile", "path": dn + "/" + nm, "content": b"new %d\n" % k}, {"op": "add", "path": dn + "/" + nm, "id": "qn%d" % k}]
         script += [{"op": rng.choice(["unversion", "unversion", "remove"]), "path": dn, "api": rng.choice(["unversion", "unversion", "remove"])}]
         ctx.hist("uncommitted-children-preamble")
+    elif rng.random() < 0.2:
+        script, how = _exec_place_preamble(rng)
+        ctx.hist("exec-place-preamble:" + how)
     nops += len(script)
     for step in range(nops + 1):
         r = rng.random()
